@@ -662,6 +662,10 @@ namespace Kafka.Replay
 def leanCodecs : Model.Codecs where
   gunzip := fun b => match Inflate.gunzip b with | .ok o => some o | .error _ => none
   unsnap := Snappy.rawDecode
+  -- the announced length: a varint of at most five bytes below 2^32
+  snapLen := fun b => match Snappy.varint 5 b 0 0 with
+    | some (n, _) => if n < 4294967296 then some n else none
+    | none => none
 
 def leanComp (c : Nat) (b : Bytes) : Bytes := if c = 1 then Inflate.gzipStored b else Snappy.rawEncode b
 
